@@ -946,6 +946,54 @@ def synthesise_dataclass_constructors(tree):
         out.append(C.name)
     return out
 
+def canonical_term_fields(tree):
+    """The public term classes Atom(name) and Functor(name, args) keep their constructor arguments in private fields that the
+    analyses know as ``_name`` and ``_args``.  When the fields carry other names (with the old names kept as alias
+    properties or not at all), they are renamed back throughout the module.  -> {old: canonical}"""
+    classes = {c.name: c for c in tree.body if isinstance(c, ast.ClassDef)}
+    ren = {}
+    for cname, canon in (('Atom', ('_name',)), ('Functor', ('_name', '_args'))):
+        C = classes.get(cname)
+        init = next((m for m in C.body if isinstance(m, ast.FunctionDef) and m.name == '__init__'), None) if C is not None else None
+        if init is None or len(init.args.args) < 1 + len(canon):
+            continue
+        me = init.args.args[0].arg
+        for p_, want in zip([a.arg for a in init.args.args[1:]], canon):
+            flds = [t.attr for st in init.body if isinstance(st, ast.Assign) and isinstance(st.value, ast.Name) and st.value.id == p_
+                    for t in st.targets if isinstance(t, ast.Attribute) and isinstance(t.value, ast.Name) and t.value.id == me]
+            if len(flds) == 1 and flds[0] != want:
+                if ren.get(flds[0], want) != want:
+                    return {}
+                ren[flds[0]] = want
+    if not ren:
+        return {}
+    # the old names may only be used by these classes, and the canonical names only as alias properties
+    for old, want in ren.items():
+        for c in classes.values():
+            if c.name in ('Atom', 'Functor'):
+                continue
+            for x in ast.walk(c):
+                if isinstance(x, ast.Attribute) and x.attr == old and isinstance(x.ctx, ast.Store) and isinstance(x.value, ast.Name) and x.value.id == 'self':
+                    return {}
+    for c in (classes.get('Atom'), classes.get('Functor')):
+        if c is None:
+            continue
+        keep = []
+        for m in c.body:
+            if isinstance(m, ast.FunctionDef) and m.name in ren.values():
+                decs = [ast.unparse(d) for d in m.decorator_list]
+                if decs == ['property'] or any(d.endswith('.setter') for d in decs):
+                    body = [st for st in m.body if not (isinstance(st, ast.Expr) and isinstance(st.value, ast.Constant))]
+                    if len(body) == 1 and any(isinstance(x, ast.Attribute) and x.attr in ren for x in ast.walk(body[0])):
+                        continue            # an alias property of the renamed field: dropped
+                return {}
+            keep.append(m)
+        c.body = keep
+    for x in ast.walk(tree):
+        if isinstance(x, ast.Attribute) and x.attr in ren:
+            x.attr = ren[x.attr]
+    return ren
+
 
 class FuncInfo:
     def __init__(self, module, node, cls=None, parent=None):
@@ -1070,6 +1118,7 @@ class Module:
         with open(path, encoding='utf-8') as f:
             self.src = f.read()
         self.tree = repo.parsed(name)
+        self.canonical_fields = canonical_term_fields(self.tree) if name == 'engine' else {}
         self.desugared = desugar_match(self.tree)
         self.dataclasses = synthesise_dataclass_constructors(self.tree)
         self.conditionals = desugar_conditional_statements(self.tree)
